@@ -1380,6 +1380,7 @@ def apply_text_layout(
                 if s.sc:
                     line.append(b"".rjust(s.sc))
                     attrrange(s.offs, s.offs, s.sc)
+                    linec.append((None, s.sc))
             else:
                 line.append(b"".rjust(s.sc))
                 linea.append((None, s.sc))
